@@ -186,6 +186,9 @@ func c18Run(c c18Case) *common.Fail {
 				return common.Failf("wrong-value", "%s %q parsed to %d, reference says %d", c.Kind, c.Text, got, want)
 			}
 		case refDontCare:
+			if err == nil && got == 0 {
+				return common.Failf("zero-accepted", "%s %q is accepted and yields address 0: address zero is never a result, however its components are spelled", c.Kind, c.Text)
+			}
 			if err == nil && got != want {
 				return common.Failf("wrong-value", "%s %q (non-canonical numerals) accepted as %d, reference value %d", c.Kind, c.Text, got, want)
 			}
@@ -431,6 +434,32 @@ func TestC18(t *testing.T) {
 		rec.Exhaustive("constructors NewGroupAddr3, NewGroupAddr2, NewIndividualAddr3 (2^24 each) and NewIndividualAddr2 (2^16)")
 		rec.Sample("ctor", c18Case{Kind: "ctor", Ctor: "NewGroupAddr3", Args: []int64{255, 255, 255}})
 	}
+	// 3a. every spelling of zero in every component (leading zeros and signs are numerals the parsers may or may not
+	// take - but whatever they take, address zero is not a result)
+	zeros := []string{"0", "00", "000", "+0", "-0", "0000000000"}
+	for _, f := range c18Forms {
+		idx := make([]int, len(f.hi))
+		for {
+			parts := make([]string, len(idx))
+			for i, z := range idx {
+				parts[i] = zeros[z]
+			}
+			do(c18Case{Kind: f.kind, Text: strings.Join(parts, f.sep)}, true)
+			i := len(idx) - 1
+			for i >= 0 {
+				idx[i]++
+				if idx[i] < len(zeros) {
+					break
+				}
+				idx[i] = 0
+				i--
+			}
+			if i < 0 {
+				break
+			}
+		}
+	}
+	rec.Exhaustive("every combination of the spellings 0, 00, 000, +0, -0, 0000000000 in every component of every form")
 	// 3b. every component of every form replaced by k*2^w + r for the machine widths w, r at the edges of its range
 	for _, f := range c18Forms {
 		for at := range f.hi {
